@@ -72,6 +72,7 @@ Proof.
     exists by_. split; [exact Hb|]. unfold frames_bytes in *. cbn [e_frames_rev]. exact Hf.
   - destruct IH as (S & R1 & R2 & R3 & R4 & R5 & R6 & R7 & R8 & by_ & Hb & Hf).
     unfold encoder_encode in Henc.
+    destruct (si_max_bs (e_si e) <? block_len b); [discriminate|].
     destruct (u64_add p (e_samples_written e) (block_len b)) as [written| |] eqn:Ew; try discriminate. cbn [bind] in Henc.
     destruct (match si_total (e_si e) with Some t => t <? written | None => false end); [discriminate|].
     destruct (8 <? N.of_nat (length b)); [discriminate|].
